@@ -175,6 +175,17 @@ CHECKS = {
         technique="TLA+ spec Find.tla/Hex.tla/Lattice.tla: TLC-computed exact query results and canonical numberings; "
                   "replayed into the implementation under similarity conjugation",
         ref="DESIGN.md section 4 C18"),
+    "C19": dict(
+        text="Grid.tla states the addressing (grid[k][j][i] = column i, row j, tier k; a slice = exactly the cells with that "
+             "index, each once) and TLC checks that slices partition the cells for all sizes up to 5x5x4; extruded, revolved "
+             "and transformed stacks on grids with pairwise different counts in random placement are observed (cell "
+             "occupied by every addressed operation, members of every slice with multiplicity, block missing from the "
+             "written file after Mesh.delete(addressed)), round shapes and disk sketches as (in core, in shell, touches "
+             "outer surface) per entity, and TLC judges every record.",
+        note="The cell an operation occupies is found by the harness from its centre against exact cell centres mapped by the "
+             "harness' own rotation code. WrappedDisk has a middle ring that is neither core nor shell and is not judged.",
+        technique="TLA+ spec Grid.tla: TLC-checked index arithmetic + TLC trace acceptor over observed addressing",
+        ref="DESIGN.md section 4 C19"),
 }
 
 def main():
